@@ -47,7 +47,7 @@ def shards(tier):
 def floors(tier):
     return {"errors_checked": 40000, "context_errors_checked": 2000, "errors_through_ref_hop": 500,
             "false_schema_errors": 100, "d3_required_errors": 100, "propertyNames_errors": 100,
-            "errors_below_position0": 3000, "applicator_cells": 60, "identical_objects": 40000}
+            "errors_below_position0": 3000, "applicator_cells": 60, "identical_objects": 40000, "leaves_without_held_ancestors": 2000}
 
 
 def same(a, b):
@@ -265,14 +265,15 @@ def check_error(ctx, case, W, instance, e, is_context):
 def check_case(ctx, d, schema, store, handler_docs, inst, info=None):
     cls = impl.CLS[d]
     case = {"draft": d, "schema": schema, "store": store, "handler_docs": handler_docs, "instance": inst}
-    try:
+    def make_validator():
         if store or handler_docs:
             def handler(url):
                 return handler_docs[url.split("#")[0]]
             resolver = RefResolver.from_schema(schema, id_of=cls.ID_OF, store=dict(store), handlers={"vf": handler})
-            errs = list(cls(schema, resolver=resolver).iter_errors(inst))
-        else:
-            errs = list(cls(schema).iter_errors(inst))
+            return cls(schema, resolver=resolver)
+        return cls(schema)
+    try:
+        errs = list(make_validator().iter_errors(inst))
     except Exception:
         ctx.count("skipped_exception")
         return 0
@@ -283,8 +284,36 @@ def check_case(ctx, d, schema, store, handler_docs, inst, info=None):
     docs.update(handler_docs)
     W = SchemaWalker(d, schema, docs)
     top = set(map(id, errs))
+    has_context = False
     for e in closure(errs):
         check_error(ctx, case, W, inst, e, id(e) not in top)
+        has_context = has_context or bool(e.context)
+    if has_context:
+        # the same errors reached WITHOUT keeping their ancestors alive: best_match / jsonschema.validate hand out
+        # a leaf of a context tree, and a consumer may stream iter_errors keeping only leaves
+        del errs, e
+        try:
+            from jsonschema.exceptions import best_match
+            leaf = best_match(make_validator().iter_errors(inst))
+            if leaf is not None:
+                ctx.count("leaves_without_held_ancestors")
+                check_error(ctx, dict(case, via="best_match"), W, inst, leaf, leaf.parent is not None)
+            leaves = []
+            for top_error in make_validator().iter_errors(inst):
+                stack = list(top_error.context)
+                while stack:
+                    c = stack.pop()
+                    if c.context:
+                        stack.extend(c.context)
+                    else:
+                        leaves.append(c)
+                del top_error
+            for leaf in leaves:
+                ctx.count("leaves_without_held_ancestors")
+                check_error(ctx, dict(case, via="streamed leaves"), W, inst, leaf, True)
+        except Exception as ex:
+            ctx.violation("leaf-check-raised", case, "%s: %s" % (type(ex).__name__, str(ex)[:120]))
+        return 1
     return len(errs)
 
 
